@@ -53,6 +53,12 @@ type arrEnc struct{ f func(log.Encoder) }
 func (a arrEnc) EncodeArray(e log.Encoder) { a.f(e) }
 
 type chanStruct struct{ C chan int }
+
+// badMarshal fails to marshal with an error text full of bytes that need escaping.
+type badMarshal struct{ text string }
+
+func (b badMarshal) MarshalJSON() ([]byte, error) { return nil, errors.New(b.text) }
+
 type nanStruct struct{ F float64 }
 type sample struct {
 	A int      `json:"a"`
@@ -138,6 +144,8 @@ func fieldAlphabet() []fieldCase {
 	add("Reflect(chan)", log.Reflect("r", chanStruct{}), anystr())
 	add("Reflect(NaN struct)", log.Reflect("r", nanStruct{math.NaN()}), anystr())
 	add("Reflect(error)", log.Reflect("r", errors.New("boom")), raw(errors.New("boom")))
+	add("Reflect(marshal error with hostile text)", log.Reflect("r", badMarshal{"ctl \x01\x7f \xff q\" nl\n \U000e0001"}), anystr())
+	add("String(12 KB, beyond the buffer-reuse cap)", log.String("big", strings.Repeat("x", 12000)), str(strings.Repeat("x", 12000)))
 	add("Array(custom)", log.Array("arr", arrEnc{func(e log.Encoder) {
 		e.AppendInt64(1)
 		e.AppendString("two")
